@@ -103,24 +103,82 @@ class TooManyAtoms(Exception):
     pass
 
 
-def compare(f1: Formula, f2: Formula, axioms: Iterable[Formula] = (), max_atoms: int = 14):
-    """Return (equal, witness) where witness is the first differing row {atom: bool} (care rows only)."""
+def _assign(f: Formula, a, val: bool) -> Formula:
+    """Substitute atom a := val and simplify."""
+    if f is True or f is False:
+        return f
+    h = f[0]
+    if h == "atom":
+        return val if f[1] == a else f
+    if h == "not":
+        return f_not(_assign(f[1], a, val))
+    if h == "and":
+        return f_and(*[_assign(g, a, val) for g in f[1:]])
+    if h == "or":
+        return f_or(*[_assign(g, a, val) for g in f[1:]])
+    raise ValueError(h)
+
+
+def _first_atom(f: Formula):
+    if isinstance(f, tuple):
+        if f[0] == "atom":
+            return f[1]
+        for g in f[1:]:
+            a = _first_atom(g)
+            if a is not None:
+                return a
+    return None
+
+
+def satisfy(f: Formula, budget: list | None = None):
+    """A satisfying assignment {atom: bool} of f (exhaustive case split with simplification), or None."""
+    if budget is None:
+        budget = [2_000_000]
+    if f is True:
+        return {}
+    if f is False:
+        return None
+    budget[0] -= 1
+    if budget[0] < 0:
+        raise TooManyAtoms("case-split budget exhausted")
+    # unit literals first: a conjunction's atom / negated atom children
+    a = None
+    if f[0] == "and":
+        for g in f[1:]:
+            if g[0] == "atom":
+                a, order = g[1], (True,)
+                break
+            if g[0] == "not" and g[1][0] == "atom":
+                a, order = g[1][1], (False,)
+                break
+    if a is None:
+        a, order = _first_atom(f), (True, False)
+    if f[0] == "atom":
+        return {f[1]: True}
+    for val in order:
+        r = satisfy(_assign(f, a, val), budget)
+        if r is not None:
+            r[a] = val
+            return r
+    return None
+
+
+def compare(f1: Formula, f2: Formula, axioms: Iterable[Formula] = (), max_atoms: int = 40):
+    """Return (equal, witness, atoms) where witness is an assignment {atom: bool} on which f1 and f2 differ (axioms hold)."""
     axioms = list(axioms)
     atoms: list = []
     for f in [f1, f2] + axioms:
         atoms_of(f, atoms)
-    atoms = sorted(atoms, key=akey)
     if len(atoms) > max_atoms:
         raise TooManyAtoms(len(atoms))
-    rows = 0
-    for bits in itertools.product([False, True], repeat=len(atoms)):
-        env = dict(zip(atoms, bits))
-        if not all(evalf(a, env) for a in axioms):
-            continue
-        rows += 1
-        if evalf(f1, env) != evalf(f2, env):
-            return False, env, rows
-    return True, None, rows
+    ax = f_and(*axioms)
+    diff = f_or(f_and(f1, f_not(f2)), f_and(f_not(f1), f2))
+    w = satisfy(f_and(ax, diff))
+    if w is None:
+        return True, None, 2 ** min(len(atoms), 30)
+    for a in atoms:
+        w.setdefault(a, False)
+    return False, w, 2 ** min(len(atoms), 30)
 
 
 def table(f: Formula, atoms: list, axioms: Iterable[Formula] = ()) -> tuple:
